@@ -866,6 +866,10 @@ func checkC20(w *World, r *Report) {
 				}
 			}
 			if len(built) == 0 {
+				if h := tailDelegate(f); h != nil && callsNamed(h, "BuildNode") {
+					r.OK("R20.6", fn+": BuildNode's result is not appended as a whole", f.Pos(), "hands its whole work to "+h.Name()+", decided there")
+					continue
+				}
 				panic(undecided{fn + ": BuildNode call not found"})
 			}
 			bad := token.NoPos
